@@ -286,6 +286,31 @@ def o_exactly_once(spec, tr):
     return out
 
 
+def o_omission_only(spec, tr):
+    """C09: under overload the result may lack spans, but nothing is delivered twice, nothing is delivered that must
+    never be (cancelled trace, root never finished — cancelable), and nothing the program did not produce"""
+    out = []
+    ids = idmap(spec, tr)
+    must, never, maybe = expected_final(spec, tr)
+    got = {}
+    for pos, r in tr.delivered():
+        got.setdefault((r["name"], r["trace"]), []).append(pos)
+    want = {}
+    for e in list(must) + [e for e, _ in maybe]:
+        want[(e["name"], e["trace"])] = want.get((e["name"], e["trace"]), 0) + 1
+    for k, ps in got.items():
+        n = want.get(k, 0)
+        if len(ps) > n:
+            nv = [e for e in never if (e["name"], e["trace"]) == k]
+            if nv and not n:
+                trc = spec.traces[nv[0]["root"]]
+                why = "its trace was cancelled" if trc["cancelled"] else "its root never finished"
+                out.append("span %r of trace %x was delivered although %s (cancelable, overloaded queue)" % (k[0], k[1], why))
+            else:
+                out.append("span %r of trace %x delivered %d times, the program produced it %d times (overloaded queue: omission only)" % (k[0], k[1], len(ps), n))
+    return out
+
+
 def o_attachments(spec, tr):
     """C06: properties and events on each delivered record are exactly the attached ones"""
     out = []
@@ -518,4 +543,4 @@ def o_times(spec, tr, times):
 
 
 ALL = {"idsweep": o_idsweep, "no_panic": o_no_panic, "ids": o_ids, "tree": o_tree, "exactly_once": o_exactly_once, "attachments": o_attachments,
-       "contexts": o_contexts, "closures": o_closures, "retained": o_retained, "copies": o_copies}
+       "contexts": o_contexts, "closures": o_closures, "retained": o_retained, "copies": o_copies, "omission_only": o_omission_only}
